@@ -193,6 +193,42 @@ theorem C05_map_alloc_bound (n : Int) (avail p cnt : Nat) (hp : 0 < p)
       cases h
       exact (Nat.le_div_iff_mul_le (by omega)).mp hg
 
+/-- the model's allocation counter of a value decode (the element count asked of reflect.MakeSlice /
+    twice the entry count asked of reflect.MakeMapWithSize) times the header size is at most the bytes
+    of the value: for every protocol version, type, destination type and byte string -/
+theorem C05_top_alloc_bound (proto : Nat) (t : CT) (g : GT) (data : Option Bytes) :
+    topAllocCount proto t g data * hdr proto ≤ (data.getD []).length := by
+  unfold topAllocCount
+  split
+  · rename_i e d
+    split
+    · rcases readCollectionSize_cases proto d with h | ⟨n, p, h, hp, hp2⟩
+      · simp [h]
+      · simp only [h]
+        split
+        · rename_i c hc
+          have := C05_alloc_bound n (d.length - p) p c (by rw [hp2]; exact hdr_pos proto) hc
+          subst hp2
+          simp only [Option.getD]; omega
+        · simp
+    · simp
+  · rename_i k v d
+    split
+    · rcases readCollectionSize_cases proto d with h | ⟨n, p, h, hp, hp2⟩
+      · simp [h]
+      · simp only [h]
+        split
+        · rename_i c hc
+          have := C05_map_alloc_bound n (d.length - p) p c (by rw [hp2]; exact hdr_pos proto) hc
+          subst hp2
+          simp only [Option.getD]
+          have e : 2 * c * hdr proto = c * (2 * hdr proto) := by
+            rw [Nat.mul_comm 2 c, Nat.mul_assoc]
+          omega
+        · simp
+    · simp
+  · simp
+
 /-- a list body that cannot hold `cnt` element headers never decodes to `ok` (each element read
     consumes at least one header): so the count guard never turns a successful decode into an error, it
     only refuses the allocation that would precede the inevitable `unexpected eof` -/
